@@ -177,11 +177,11 @@ OnErr(s, e) ==
             IF F.brk \/ F.ph = "fin" THEN Flag(s1, {"C03"}, "a new report is made after the error type answered stop (or after a structural failure)")
             ELSE IF e.det.k = "missing" THEN
                  Flag(s1, {"C08", "C04"} \cup KeepGoing(s)
-                          \cup (IF IsStructLike(N) /\ F.val.t = "map" /\ \E j \in 1..Len(F.val.e) : Route(N, F.vi, F.val.e[j].k) > 0 /\ EffKey(N, F.vi, Route(N, F.vi, F.val.e[j].k)) = e.det.field
+                          \cup (IF IsStructLike(N) /\ F.val.t = "map" /\ \E j \in 1..Len(F.val.e) : RouteK(N, F.vi, F.fkeys, F.val.e[j].k) > 0 /\ F.fkeys[RouteK(N, F.vi, F.fkeys, F.val.e[j].k)] = e.det.field
                                  THEN {"C07"} ELSE {}),      \* its effective key is there: the field was not read from it
                       "a field is reported missing although it is present, defaulted, skipped, or already reported")
             ELSE IF e.det.k = "unknownkey" THEN
-                 Flag(s1, {"C09", "C04"} \cup KeepGoing(s) \cup (IF IsStructLike(N) /\ Route(N, F.vi, e.det.key) > 0 THEN {"C07"} ELSE {}),
+                 Flag(s1, {"C09", "C04"} \cup KeepGoing(s) \cup (IF IsStructLike(N) /\ RouteK(N, F.vi, F.fkeys, e.det.key) > 0 THEN {"C07"} ELSE {}),
                       "a key is reported unknown although it is known, not denied, or already reported")
             ELSE IF F.ph = "bad" THEN Flag(s1, {"C04"} \cup tagprops \cup scalarprops \cup (IF N.c \in {"arr", "tup"} THEN {"C06"} ELSE {}),
                                            "the report made for a faulty value is of the wrong kind")
@@ -274,7 +274,7 @@ ExitProps(N) == CASE N.c = "scalar" -> {"C05"} [] N.c = "struct" -> {"C07", "C08
 PendProps(F) ==
     LET N == Nodes[F.n] IN
     UNION {CASE ob.o = "missing" -> {"C08"}
-             [] ob.o = "entry" /\ IsStructLike(N) -> (IF Route(N, F.vi, F.val.e[ob.i].k) = 0 THEN {"C09"} ELSE {"C07"})
+             [] ob.o = "entry" /\ IsStructLike(N) -> (IF RouteK(N, F.vi, F.fkeys, F.val.e[ob.i].k) = 0 THEN {"C09"} ELSE {"C07"})
              [] OTHER -> {"C06"} : ob \in F.pend}
 
 \* the promises behind the reports that an error value lost (or counts twice)
